@@ -62,9 +62,9 @@ ODD_NUM = ["10", "7", "0", "7.50", "07.5", "+7.5", "7.5e0", "75e-1", ".5", "5.",
            "0.75E1", "10.00", "1e1"]
 PADDED = [" 7.5", "7.5 ", "\t5.0", "10.0\n", " 0.0 "]
 NOTNUM = ["", " ", "x", "7,5", "7.5.1", "0x7", "None", "7.5/", "seven", "7.5a", "--7.5", "7 .5",
-          "CVSS:3.1", "AV:N"]
+          "CVSS:3.1", "AV:N", "sNaN", "NaN123", "snan", "nan7", "1.2.3e4", "e5", "."]
 FUZZY = ["nan", "inf", "-inf", "NaN", "Infinity", "1e400", "7_5", "7_5.0", "７.５",
-         "٧.٥", "1e-400"]
+         "٧.٥", "1e-400", "-nan", "+inf", "_1", "1_0", "1_0.0"]
 
 OUT = None
 
@@ -121,6 +121,7 @@ def near_tokens(major, vec):
     whole, tenth = divmod(b, 10)
     exact = "%d.%d" % (whole, tenth)
     out = [exact + "4", exact + "5", exact + "49", exact + "0000000001", exact + "00", exact + "e0",
+           exact + "0000004", exact + "000000000000000000001",   # the latter is fuzzy (beyond double precision)
            "%d.%d96" % divmod(b - 1, 10) if b > 0 else "0.04", "%d.%d5" % divmod(b - 1, 10) if b > 0 else "0.05",
            "%d" % whole, "%d" % (whole + 1), "0" + exact, "+" + exact, exact + "e-0", "%d.%de1" % (0, whole) if tenth == 0 else exact]
     return out
